@@ -49,7 +49,7 @@ ASSUMPTIONS = [
     "the frustum shares centre and radius with the sphere at one end (the statement's case)",
     "heights > 0, sphere radii > 0; far-end radius >= 0",
 ]
-REQUIRED = ["composites_built_between_build_and_measure", "sphere_checked", "cap_checked", "frustum_checked", "ss_intersections", "ss_unions",
+REQUIRED = ["composites_built_between_build_and_measure", "sphere_pairs_in_small_units", "sphere_checked", "cap_checked", "frustum_checked", "ss_intersections", "ss_unions",
             "sf_intersections", "sf_unions", "ss_tangent", "ss_nested", "ss_concentric",
             "ss_smaller_first", "sf_far_end_order", "sf_taper_narrowing", "sf_taper_widening",
             "sf_frustum_inside_sphere", "sf_h_below_r", "sf_h_above_r", "sf_axis_aligned",
@@ -147,6 +147,8 @@ def execute(ctx, case):
         ctx.count("direction_near_axis")
     if case.get("wide"):
         ctx.count("micro_or_huge_sizes")
+    if case.get("small_unit"):
+        ctx.count("sphere_pairs_in_small_units")
     c = np.array(case["c"], dtype=np.float64)
     if case.get("int_centre"):
         # centres given as integers (tuple of ints / integer array), as voxel-grid callers do
@@ -344,7 +346,14 @@ def draw(rng):
                  "nested": "nested", "concentric": "concentric", "just_inside": "tangent",
                  "just_outside": "tangent", "just_nested": "nested", "just_not_nested": "nested",
                  "disjoint": "disjoint"}[rel]
-        return dict(base, kind="ss", r2=r2, d=float(d), rel=rel_c, rel_detail=rel)
+        out = dict(base, kind="ss", r2=r2, d=float(d), rel=rel_c, rel_detail=rel)
+        if rng.random() < 0.15 and not base.get("int_sizes") and not base.get("int_centre"):
+            # the same pair of spheres in another length unit (metres instead of micrometres ...):
+            # "every size" -- the two-sphere formulas carry no absolute tolerance
+            k_ = float(10.0 ** -int(rng.choice([5, 6, 7, 9])))
+            out.update(r1=r1 * k_, r2=r2 * k_, d=float(d) * k_, c=[v * k_ for v in base["c"]],
+                       small_unit=True)
+        return out
     h = float(r1 * 10 ** rng.uniform(-1.5, 1.5))
     v = rng.random()
     if v < 0.12:
